@@ -24,3 +24,8 @@ package signers
 //@   on call binpatch.Load(_) ret (p, e): loadFailed = (e != nil)
 //@   on call (*binpatch.PatchSet).Apply(_, _, _) ret (e): applied = true; assert @unparsable_patch_never_applied !loadFailed
 //@   ensures @load_error_reported loadFailed ==> ret0 != nil && !applied
+//@
+//@ func (SignOpts).WithContext
+//@   property C06
+//@   ensures @other_options_unchanged ret0.Audit == o.Audit && ret0.Hash == o.Hash && ret0.Flags == o.Flags && ret0.Path == o.Path
+//@   modifies nothing
